@@ -184,7 +184,7 @@ def reopenStr (cfg : Cfg) (cands : List Nat) (img : Image A) (acked : List Chain
     let sj := (onDisk.filter (fun c => match c with
       | [] => false
       | b :: _ => b.spends.isEmpty || c ∈ rn.img.journal)).length
-    s!"r=ok,{cid rn.tip},{chain},{utxoStr cands rn.utxo},{missing} uh={uhStr cands rn.utxo} mc={mc} bb={bb} sj={sj} bs={rn.tip.length}/{numTx rn.tip}/{totalTx rn.tip} fin={cid specTip};{cid after.tip};{utxoStr cands after.utxo}"
+    s!"r=ok,{cid rn.tip},{chain},{utxoStr cands rn.utxo},{missing} ur=0 uh={uhStr cands rn.utxo} mc={mc} bb={bb} sj={sj} bs={rn.tip.length}/{numTx rn.tip}/{totalTx rn.tip} fin={cid specTip};{cid after.tip};{utxoStr cands after.utxo}"
 
 def resList (recs : List OpRec) : String := ".".intercalate (recs.map (fun r => resStr r.res))
 
@@ -269,14 +269,24 @@ def handle : List String → String
     | some ((cfg, cfg2, _), base, os), some k => if k == 0 then "malformed" else handleImg cfg cfg2 base os k
     | _, _ => "malformed"
   | ["lazy", cache, prune, blocks, ops, k] =>
-    -- lazily flushed metadata cache, every 3rd commit written through: a power loss after commit k
-    -- leaves the image of the durable prefix k - k mod 3 (C05's prefix durability)
+    -- lazily flushed metadata cache: every 7th commit is written through, and ffldb flushes on its own
+    -- after a commit that deletes block files (prune); a power loss after commit k leaves the image of
+    -- the durable prefix (C05's prefix durability)
     match setup cache prune blocks ops, k.toNat? with
     | some ((cfg, cfg2, _), base, os), some k =>
-      if k < 3 then "malformed"
+      if k < 7 then "malformed"
       else
         let r := handleImg cfg cfg2 base os k
-        if (r.splitOn " out-of-range").length > 1 then r else handleImg cfg cfg2 base os (k - k % 3)
+        if (r.splitOn " out-of-range").length > 1 then r
+        else
+          match recover cfg base with
+          | .error _ => r
+          | .ok nd0 =>
+            let log := (runOps cfg nd0 os).log
+            let durable := (List.range (k + 1)).foldl (fun acc j =>
+              if j ≥ 1 && (j % 7 == 0 || (log.drop (j - 1)).head?.any (fun c => match c with
+                | .connectPrune _ _ _ => true | _ => false)) then j else acc) 0
+            handleImg cfg cfg2 base os durable
     | _, _ => "malformed"
   | ["img2", cache, prune, blocks, ops, k, j] =>
     match setup cache prune blocks ops, k.toNat?, j.toNat? with
